@@ -349,7 +349,17 @@ def c05(tier, seed):
         core.sh([vh, "variants", "--fens", lst, "--out", out])
         return (out, "vh variants (single-feature variations of %d base positions, first: %s)" % (len(chunk), chunk[0]))
     jobs = core.pmap(mkvar, [(i, c) for i, c in enumerate(chunks) if c])
-    nvar = sum(1 for p, _ in jobs for _ in open(p))
+    nvar = 0
+    nacc = 0
+    for pth, _ in jobs:
+        with open(pth) as f:
+            for l in f:
+                nvar += 1
+                e = json.loads(l)
+                if e.get("ev") == "var" and e["b"].get("ok") and e["v"].get("ok"):
+                    nacc += 1
+                elif e.get("ev") == "states":
+                    nacc += sum(1 for x in e["list"] if x[2].get("ok"))
     game.judge_traces(run, jobs, {"C05"})
     with open(jobs[0][0]) as f:
         for l in f:
@@ -382,13 +392,15 @@ def c05(tier, seed):
                       {"driver": "collide", "note": "re-run ./check C05 with the same seed"})
     run.cov["evaluations"] = nvar + len(pairs) + explored
     run.cov["distinct_nontrivial"] = len(pairs) + explored
-    run.cov["variants_imported"] = nvar
+    run.cov["variants_generated"] = nvar
+    run.cov["variants_imported"] = nacc        # the reader refuses variations that are no positions (a right without its rook, a void ep square)
     run.cov["impl_positions_hashed"] = len(pairs)
     run.cov["model_positions_hashed"] = explored
     run.cov["rule"] = ("(a) 66 feature classes of the real key table, exhaustive; (b) every position of the listed families and of "
                        "legal play to the listed depth is hashed by spec/Zobrist.tla and TLC counts distinct states under VIEW position "
                        "and VIEW hash; (c) every single-feature variation (side, 4 rights, 9 ep values, 64x13 contents) of each base "
-                       "position is imported by the real engine and both hashes are judged; positions visited by the play driver are "
+                       "position is offered to the real engine and, where the reader accepts it (it refuses rights and en-passant squares the board "
+                       "contradicts), both hashes are judged; positions visited by the play driver are "
                        "fed back as an initial-state set. distinct = distinct positions")
     run.assumptions += ["collision freedom is a statement about the explored set only (a 64-bit hash has collisions)",
                         "implementation hash = Zobrist!Hash is established by C04 on the same kind of traces"]
